@@ -152,6 +152,11 @@ func bulkBuiltArgs() []any {
 	for _, a := range []string{"t", "limA", "A:t", "Mc:t,u5", "s:A:h,h", "M:t"} {
 		args = append(args, c17Arg{T: 256, Mode: "arr-streams-nested", Prefix: []string{a}, MaxLen: 5})
 	}
+	for _, a := range []string{"t", "limM", "limM+", "mid"} {
+		for _, b := range []string{"t", "limM", "limM+", "mid"} {
+			args = append(args, c17Arg{T: 256, Mode: "map-streams", Prefix: []string{a, b}, MaxLen: 5})
+		}
+	}
 	for sh := 0; sh < 16; sh++ {
 		args = append(args, c17Arg{T: 256, Mode: "arr-tails", From: 8, To: 70, Tail: 3, Shard: sh, Shards: 16})
 		args = append(args, c17Arg{T: 256, Mode: "map-batch", From: 0, To: 40, Shard: sh, Shards: 16})
